@@ -407,6 +407,111 @@ fn check_names(i: u64, l: &mut Local) {
     }
 }
 
+// ---- a blocker that receives tagged rules while tags are switched -----------------------------
+
+/// Operations on a `Blocker` that starts with two untagged rules: tag switches and `add_filter` of
+/// tagged rules of every category. After any history the blocker must answer like a blocker built
+/// in one go from the rules it holds, with the model's tag set enabled.
+const BH_ADD: [&str; 5] = ["adv$tag=a", "@@advice$tag=b", "adv$important,tag=a", "||x.com^$csp=d1,tag=b", "advert$tag=b"];
+const BH_BASE: [&str; 2] = ["advice", "foo*bar"];
+const BH_OPS: usize = 6 + BH_ADD.len();
+
+fn bh_op_name(o: usize) -> String {
+    match o {
+        0 => "use[a]".into(),
+        1 => "use[]".into(),
+        2 => "enable[a]".into(),
+        3 => "enable[b]".into(),
+        4 => "disable[a]".into(),
+        5 => "enable[]".into(),
+        k => format!("add_filter({})", BH_ADD[k - 6]),
+    }
+}
+
+fn bh_answers(b: &adblock::blocker::Blocker, bat: &[(String, &'static str, &'static str)]) -> Result<Vec<String>, String> {
+    let res = adblock::resources::ResourceStorage::default();
+    catch(|| {
+        bat.iter()
+            .map(|(u, s, t)| {
+                let r = adblock::request::Request::new(u, s, t).unwrap();
+                format!("{:?} {:?}", Verdict::of(&b.check(&r, &res)), csp_set(&b.get_csp_directives(&r)))
+            })
+            .collect()
+    })
+}
+
+fn bh_run(seq: &[usize], optimize: bool, bat: &[(String, &'static str, &'static str)], l: &mut Local) {
+    use adblock::blocker::{Blocker, BlockerOptions};
+    let nf = |r: &str| adblock::filters::network::NetworkFilter::parse(r, true, Default::default()).expect("pool rule must parse");
+    let opts = BlockerOptions { enable_optimizations: optimize };
+    let mut b = Blocker::new(BH_BASE.iter().map(|r| nf(r)).collect(), &opts);
+    let mut held: Vec<&str> = BH_BASE.to_vec();
+    let mut model: BTreeSet<&str> = BTreeSet::new();
+    l.evaluations += 1;
+    let case = || json!({"kind":"blocker-history","optimize":optimize,"ops":seq});
+    for &o in seq {
+        l.transitions += 1;
+        let r = catch(|| match o {
+            0 => b.use_tags(&["a"]),
+            1 => b.use_tags(&[]),
+            2 => b.enable_tags(&["a"]),
+            3 => b.enable_tags(&["b"]),
+            4 => b.disable_tags(&["a"]),
+            5 => b.enable_tags(&[]),
+            k => {
+                let _ = b.add_filter(nf(BH_ADD[k - 6]));
+            }
+        });
+        if let Err(loc) = r {
+            l.mismatch(Mismatch { sig: format!("c07.blocker-history.panic@{}", loc), what: format!("{} panicked", bh_op_name(o)), case: case(), size: seq.len() as u64 });
+            return;
+        }
+        match o {
+            0 => model = ["a"].into_iter().collect(),
+            1 => model.clear(),
+            2 => {
+                model.insert("a");
+            }
+            3 => {
+                model.insert("b");
+            }
+            4 => {
+                model.remove("a");
+            }
+            5 => {}
+            k => {
+                if !held.contains(&BH_ADD[k - 6]) {
+                    held.push(BH_ADD[k - 6]);
+                }
+            }
+        }
+    }
+    let got = bh_answers(&b, bat);
+    let mut fresh = Blocker::new(held.iter().map(|r| nf(r)).collect(), &BlockerOptions { enable_optimizations: false });
+    fresh.use_tags(&model.iter().copied().collect::<Vec<_>>());
+    let exp = bh_answers(&fresh, bat);
+    l.compared += bat.len() as u64;
+    if held.len() > BH_BASE.len() && !model.is_empty() {
+        l.nontrivial += 1;
+    }
+    let mut enabled = b.tags_enabled();
+    enabled.sort();
+    let want: Vec<String> = model.iter().map(|s| s.to_string()).collect();
+    if got != exp || enabled != want {
+        let names: Vec<String> = seq.iter().map(|&o| bh_op_name(o)).collect();
+        let i = match (&got, &exp) {
+            (Ok(g), Ok(e)) => g.iter().zip(e.iter()).position(|(x, y)| x != y),
+            _ => None,
+        };
+        l.mismatch(Mismatch {
+            sig: format!("c07.blocker-history.{}.last-op-{}", if enabled != want { "enabled-set" } else { "activity" }, seq.last().map(|&o| if o < 6 { "tags" } else { "add_filter" }).unwrap_or("none")),
+            what: format!("blocker (optimize={}) after {:?}: holds {:?}, model tags {:?}, tags_enabled {:?}; first differing query {:?}: blocker {:?}, blocker built in one go {:?}", optimize, names, held, model, enabled, i.map(|i| &bat[i]), i.and_then(|i| got.as_ref().ok().map(|g| g[i].clone())), i.and_then(|i| exp.as_ref().ok().map(|g| g[i].clone()))),
+            case: case(),
+            size: (seq.len() * 100) as u64,
+        });
+    }
+}
+
 fn hx_lists() -> Vec<(Vec<&'static str>, bool)> {
     let full: Vec<&'static str> = POOL.to_vec();
     let tagged: Vec<&'static str> = POOL.iter().copied().filter(|r| tag_of(r).is_some()).collect();
@@ -418,6 +523,10 @@ fn replay(case: &Value, l: &mut Local) {
     let bat = battery();
     match case["kind"].as_str().unwrap_or("") {
         "names" => check_names(case["index"].as_u64().unwrap_or(0), l),
+        "blocker-history" => {
+            let seq: Vec<usize> = case["ops"].as_array().map(|a| a.iter().filter_map(|v| v.as_u64().map(|x| x as usize)).collect()).unwrap_or_default();
+            bh_run(&seq, case["optimize"].as_bool().unwrap_or(false), &bat, l);
+        }
         "history" => {
             let which = case["list_id"].as_u64().unwrap_or(0) as usize;
             let lists = hx_lists();
@@ -452,6 +561,16 @@ fn check(ctx: &Ctx) -> i32 {
     let nn = NAMES.len() as u64;
     ctx.bound("tag_name_spellings", NAMES.len());
     ctx.par_range("tag names: rule-side x API-side spellings", nn * nn * nn * NAME_FORMS.len() as u64 * 2, 4, |i, l| check_names(i, l));
+    // blocker histories: tag switches interleaved with add_filter of tagged rules
+    let bh_depth: u32 = ctx.tier.pick(4, 5);
+    ctx.bound("blocker_history_depth", bh_depth);
+    ctx.bound("blocker_history_operations", BH_OPS);
+    let bh_total = vh::util::count_strings_upto(BH_OPS as u64, bh_depth);
+    ctx.par_range("blocker histories (tag switches x add_filter)", bh_total * 2, 64, |i, l| {
+        let mut seq = vec![];
+        vh::util::nth_seq(i / 2, BH_OPS as u64, &mut seq);
+        bh_run(&seq, i % 2 == 1, &bat, l);
+    });
     // HX part
     let depth: u32 = ctx.tier.pick(3, 4);
     ctx.bound("history_depth", depth);
@@ -478,7 +597,7 @@ fn check(ctx: &Ctx) -> i32 {
     }
     ctx.finish(
         "model_checking",
-        "BX: all 16384 subsets of the 14-rule pool x optimise on/off x all 8 tag sets x a 30-query battery (network + CSP), compared with an engine built from the tag-stripped sublist; HX: on 4 representative lists every operation sequence of length <= d over 28 operations (use/enable/disable of every subset of {a,b,c}; deserialize of the same list serialised under every subset of {a,b}), each on a fresh real engine; tag_exists checked against the set model after every step and the battery after the last; tag names: 9 spellings (empty, padded, case twins, inner blank, non-ASCII) on the rule side x the same on the API side (use, enable, use+disable of a second name) x 4 rule categories x optimise, membership by equality of the names given; non-trivial = a tagged rule is present / the final tag set is non-empty; states = engines built + model states, transitions = operations and queries executed",
+        "BX: all 16384 subsets of the 14-rule pool x optimise on/off x all 8 tag sets x a 30-query battery (network + CSP), compared with an engine built from the tag-stripped sublist; HX: on 4 representative lists every operation sequence of length <= d over 28 operations (use/enable/disable of every subset of {a,b,c}; deserialize of the same list serialised under every subset of {a,b}), each on a fresh real engine; tag_exists checked against the set model after every step and the battery after the last; tag names: 9 spellings (empty, padded, case twins, inner blank, non-ASCII) on the rule side x the same on the API side (use, enable, use+disable of a second name) x 4 rule categories x optimise, membership by equality of the names given; blocker histories: every sequence of <= 4 (thorough 5) of 11 operations (use / enable / disable of tags, add_filter of a tagged rule of each category) on a Blocker built with and without optimisation, compared with a blocker built in one go from the rules held, under the model's tag set; non-trivial = a tagged rule is present / the final tag set is non-empty; states = engines built + model states, transitions = operations and queries executed",
         &["the tag-stripped reference engine is built by the same crate (differential); tag combined with redirect / removeparam / generichide is outside the property's list of categories and not generated"],
     )
 }
